@@ -35,14 +35,21 @@ func init() {
 type detReader struct {
 	c     *Ctx
 	drawn [][]byte
+	short bool   // legal io.Reader behaviour: return fewer bytes than asked for
+	all   []byte // everything handed out, in order
 }
 
 func (d *detReader) Read(p []byte) (int, error) {
-	for i := range p {
-		p[i] = byte(d.c.rng.Intn(256))
+	n := len(p)
+	if d.short && n > 1 {
+		n = 1 + d.c.rng.Intn(n-1)
 	}
-	d.drawn = append(d.drawn, append([]byte{}, p...))
-	return len(p), nil
+	for i := 0; i < n; i++ {
+		p[i] = byte(1 + d.c.rng.Intn(255))
+	}
+	d.drawn = append(d.drawn, append([]byte{}, p[:n]...))
+	d.all = append(d.all, p[:n]...)
+	return n, nil
 }
 
 func (c *Ctx) randBytes(n int) []byte {
